@@ -61,6 +61,9 @@ TRUSTED_EXTRA = [
     "partial (no byte-level model); writers serialise on _wlock; SIGKILL/SIGTERM/SIGSEGV/os._exit all mean 'dead'.",
     "hypothesis of every *_partial liveness theorem: no worker dies between the first and the last byte of its result message "
     "(NoTornMessage). Without it the property is FALSE of model and code (F15): C10.f15_hazard_reachable / f15_hazard_blocks_forever.",
+    "the driver's exploration (Driver/C10.lean) is trusted: it composes the model's own events (take / sendResult / beginSend / kill / "
+    "managerStep / getReusableExecutor / abortEverything) into joblib's call sequence, submits a call's tasks up front, identifies "
+    "states up to renaming of worker pids (workers are interchangeable) and forgets executors whose manager has returned",
     "the fault-injection runs tie the model to the code by OUTCOME CLASS only (exception class, executor id sequence, hang), "
     "not by event trace; racy schedules (a kill not followed by a pause) are checked by membership in the model's outcome set",
     "not modelled: Future.cancel, _on_queue_feeder_error (unpicklable task), interpreter shutdown and executor garbage collection, "
@@ -499,6 +502,15 @@ def _explore(ctx, scs, res, label):
         tr = impl_trace(sc, r)
         case = dict(family=sc["family"], n_jobs=sc["n_jobs"], managed=sc["managed"], calls=sc["calls"],
                     timeout=sc.get("timeout", default_to))
+        surv = [e["survivors"] for e in r["events"] if e.get("survivors")]
+        if surv:
+            # a worker the harness signalled from outside is still running: the fault of the schedule did not happen,
+            # so neither the oracle's fault count nor the model's prediction applies to this run
+            res.count("fault-not-delivered")
+            if len(res.notes) < 10:
+                res.notes.append(dict(fault_not_delivered=case, survivors=surv[-1], trace=" ".join(tr),
+                                      stderr_tail=r["stderr_tail"][-600:]))
+            continue
         res.evaluations += 1
         res.count("family=" + sc["family"])
         res.count(f"n_jobs={sc['n_jobs']}")
@@ -531,7 +543,8 @@ def _explore(ctx, scs, res, label):
             ds = res.extra.setdefault("divergence_samples", [])
             if len(ds) < 5:
                 ds.append(dict(case=case, impl=" ".join(tr), model=sorted(" ".join(t) for t in pred)[:8],
-                               events=[e for e in r["events"] if e.get("ev") != "start"]))
+                               events=[e for e in r["events"] if e.get("ev") != "start"],
+                               stderr_tail=r["stderr_tail"][-1200:]))
     _sweep_shm(main_pids)
     return res
 
